@@ -97,7 +97,7 @@ def c14_model(ctx, m, n, kind, wd):
     p, dm = pybc(), _dm()
     xs, ys = _table(ctx, n)
     bcs = [ctx.real(f'bc{i}', 1e-3, 10) for i in range(m)]
-    ms = [ctx.real(f'bcmach{i}', 1e-3, 10) for i in range(m)]
+    ms = [ctx.real(f'bcmach{i}', 0, 10) for i in range(m)]          # Mach 0 (the first node of every shipped table) included
     for i in range(m):
         for j in range(i):
             ctx.assume(ms[i] != ms[j])
@@ -138,6 +138,14 @@ def c14_model(ctx, m, n, kind, wd):
         ctx.check('points_intact', ctx.same_term(given[i].BC, bcs[i]) and ctx.same_term(given[i].Mach, ms[i]))
     if donor is not None:
         ctx.check('donor_model_unchanged', all(ctx.same_term(donor.drag_table[i].CD, ys[i]) for i in range(n)) and donor.BC == 0.5)
+    # ANOTHER model on the same table whose BC points sit at the same Mach numbers but carry other BC values (the next bullet of a line),
+    # built after the first: its effective BC interpolates ITS points
+    bcs_b = [ctx.real(f'bc_other{i}', 1e-3, 10) for i in range(m)]
+    other = dm.DragModelMultiBC([dm.BCPoint(bcs_b[i], Mach=ms[i]) for i in range(m)], table_in)
+    pts_b = [(ms[i], bcs_b[i]) for i in order]
+    for i in range(n):
+        ctx.check_eq('effective_bc_is_interpolated', ys[i] * other.BC / other.drag_table[i].CD, _interp_oracle(ctx, xs[i], pts_b), rel=1e-9,
+                     info={'node': i, 'model': 'second model, same Mach bands, other BC values'})
     # built twice from the same inputs
     model2 = build()
     for i in range(n):
